@@ -3,8 +3,11 @@
 
 Tables: the CRC-32 nibble table of Utils::crc32 (src/utils/checksum_utils.cpp) and the TKIP S-box
 `sbox_table[2][256]` (src/crypto.cpp); literal limits of the decrypt guards (WEP `<= 8`, TKIP `<= 20`,
-CCMP `<= 16`).  If something cannot be extracted the corresponding Lean definition is emitted empty / 0,
-so the dependent `decide` theorems fail and the check goes to its search step.
+CCMP `<= 16`); the literals of the key derivation in `SessionKeys::SessionKeys(const RSNHandshake&, const pmk_type&)`
+and `SupplicantData` (label, PKE buffer size and offsets, number and stride of the HMAC calls, the counter expression,
+the zeroed MIC range, KCK length, PMK size, PBKDF2 iteration count).  If something cannot be extracted the
+corresponding Lean definition is emitted empty / 0, so the dependent `decide` theorems fail and the check goes to its
+search step.
 """
 import os, re, sys
 
@@ -39,10 +42,60 @@ def extract(repo):
             return 0
         g = re.search(re.escape(expr) + r"\s*<=\s*(\d+)\s*\)\s*\{\s*return\s+0\s*;", fm.group(2))
         return int(g.group(1)) if g else 0
+    out["kdf"] = extract_kdf(crypto)
     out["wep_min"] = guard("PDU* WEPDecrypter::decrypt", "pload.size()")
     out["tkip_min"] = guard("SNAP* SessionKeys::tkip_decrypt_unicast", "raw.payload_size()")
     out["ccmp_min"] = guard("SNAP* SessionKeys::ccmp_decrypt_unicast", "raw.payload_size()")
     return out
+
+
+KDF_KEYS = ["pke_size", "addr_off1", "addr_off2", "nonce_off1", "nonce_off2", "counter_off", "prf_rounds", "prf_stride",
+            "mic_off", "mic_len", "kck_len", "pmk_size", "ptk_size", "pbkdf2_iter"]
+
+
+def extract_kdf(crypto):
+    """literals of the PTK derivation, each found at a named anchor (function + normalised expression)"""
+    k = {x: 0 for x in KDF_KEYS}
+    k["label"] = []
+    k["counter_is_index"] = False
+    k["sorted_nonce_first"] = False
+    k["mic_compare_full"] = False
+    fm = re.search(r"SessionKeys::SessionKeys\s*\(\s*const\s+RSNHandshake\s*&\s*hs\s*,\s*const\s+pmk_type\s*&\s*pmk\s*\)(.*?)\n\}", crypto, re.S)
+    if fm:
+        b = fm.group(1)
+        m = re.search(r'uint8_t\s+PKE\s*\[\s*(\d+)\s*\]\s*=\s*"([^"]*)"', b)
+        if m:
+            k["pke_size"] = int(m.group(1)); k["label"] = list(m.group(2).encode())
+        m = re.search(r"min\s*\(hs\.client_address\(\)\s*,\s*hs\.supplicant_address\(\)\)\.copy\(PKE\s*\+\s*(\d+)\)", b)
+        if m: k["addr_off1"] = int(m.group(1))
+        m = re.search(r"max\s*\(hs\.client_address\(\)\s*,\s*hs\.supplicant_address\(\)\)\.copy\(PKE\s*\+\s*(\d+)\)", b)
+        if m: k["addr_off2"] = int(m.group(1))
+        m = re.search(r"if\s*\(\s*lexicographical_compare\(nonce1\s*,\s*nonce1\s*\+\s*32\s*,\s*nonce2\s*,\s*nonce2\s*\+\s*32\)\s*\)\s*\{\s*"
+                      r"copy\(nonce1\s*,\s*nonce1\s*\+\s*32\s*,\s*PKE\s*\+\s*(\d+)\);\s*copy\(nonce2\s*,\s*nonce2\s*\+\s*32\s*,\s*PKE\s*\+\s*(\d+)\);", b)
+        if m:
+            k["nonce_off1"], k["nonce_off2"] = int(m.group(1)), int(m.group(2)); k["sorted_nonce_first"] = True
+        m = re.search(r"for\s*\(\s*int\s+i\s*\(\s*0\s*\)\s*;\s*i\s*<\s*(\d+)\s*;\s*\+\+i\s*\)\s*\{\s*PKE\s*\[\s*(\d+)\s*\]\s*=\s*([^;]+);\s*"
+                      r"HMAC\(EVP_sha1\(\)\s*,\s*&pmk\[0\]\s*,\s*pmk\.size\(\)\s*,\s*PKE\s*,\s*(\d+)\s*,\s*&ptk_\[0\]\s*\+\s*i\s*\*\s*(\d+)\s*,\s*0\)", b)
+        if m:
+            k["prf_rounds"], k["counter_off"], k["prf_stride"] = int(m.group(1)), int(m.group(2)), int(m.group(5))
+            k["counter_is_index"] = m.group(3).strip() == "i" and int(m.group(4)) == k["pke_size"]
+        m = re.search(r"fill\(buffer\.begin\(\)\s*\+\s*(\d+)\s*,\s*buffer\.begin\(\)\s*\+\s*(\d+)\s*\+\s*(\d+)\s*,\s*0\)", b)
+        if m and m.group(1) == m.group(2):
+            k["mic_off"], k["mic_len"] = int(m.group(1)), int(m.group(3))
+        k["mic_compare_full"] = re.search(
+            r"if\s*\(\s*!equal\(MIC\s*,\s*MIC\s*\+\s*RSNEAPOL::mic_size\s*,\s*last_hs\.mic\(\)\)\s*\)\s*\{\s*throw\s+invalid_handshake\(\);",
+            b) is not None
+        ms = re.findall(r"HMAC\(EVP_(?:sha1|md5)\(\)\s*,\s*&ptk_\[0\]\s*,\s*(\d+)\s*,\s*&buffer\[0\]\s*,\s*buffer\.size\(\)\s*,\s*MIC\s*,\s*0\)", b)
+        if len(ms) == 2 and ms[0] == ms[1]:
+            k["kck_len"] = int(ms[0])
+    m = re.search(r"SessionKeys::PTK_SIZE\s*=\s*(\d+)", crypto)
+    if m: k["ptk_size"] = int(m.group(1))
+    m = re.search(r"SessionKeys::PMK_SIZE\s*=\s*(\d+)", crypto)
+    if m: k["pmk_size"] = int(m.group(1))
+    m = re.search(r"PKCS5_PBKDF2_HMAC_SHA1\s*\(\s*psk\.c_str\(\)\s*,\s*psk\.size\(\)\s*,\s*\(unsigned char \*\)ssid\.c_str\(\)\s*,\s*ssid\.size\(\)\s*,\s*(\d+)\s*,"
+                  r"\s*pmk_\.size\(\)", crypto)
+    if m: k["pbkdf2_iter"] = int(m.group(1))
+    return k
 
 
 def render(t):
@@ -67,6 +120,30 @@ def wepMin : Nat := {t['wep_min']}
 def tkipMin : Nat := {t['tkip_min']}
 /-- `if (raw.payload_size() <= ccmpMin) return 0;` in `ccmp_decrypt_unicast` (0 = guard not found) -/
 def ccmpMin : Nat := {t['ccmp_min']}
+
+/-! literals of `SessionKeys::SessionKeys(const RSNHandshake&, const pmk_type&)` and `SupplicantData` (0 / [] / false = not found) -/
+/-- the string literal `PKE` is initialised with -/
+def kdfLabel : List UInt8 := [{", ".join(str(x) for x in t['kdf']['label'])}]
+def kdfPkeSize : Nat := {t['kdf']['pke_size']}
+def kdfAddrOff1 : Nat := {t['kdf']['addr_off1']}
+def kdfAddrOff2 : Nat := {t['kdf']['addr_off2']}
+def kdfNonceOff1 : Nat := {t['kdf']['nonce_off1']}
+def kdfNonceOff2 : Nat := {t['kdf']['nonce_off2']}
+def kdfCounterOff : Nat := {t['kdf']['counter_off']}
+def kdfRounds : Nat := {t['kdf']['prf_rounds']}
+def kdfStride : Nat := {t['kdf']['prf_stride']}
+/-- `PKE[counterOff] = i` with `i` the loop index, and the HMAC runs over all `kdfPkeSize` octets -/
+def kdfCounterIsIndex : Bool := {'true' if t['kdf']['counter_is_index'] else 'false'}
+/-- the `lexicographical_compare(nonce1, …, nonce2, …)` branch copies nonce1 to the lower offset -/
+def kdfSmallerNonceFirst : Bool := {'true' if t['kdf']['sorted_nonce_first'] else 'false'}
+/-- `if (!equal(MIC, MIC + RSNEAPOL::mic_size, last_hs.mic())) throw invalid_handshake();` -/
+def kdfMicCompareFull : Bool := {'true' if t['kdf']['mic_compare_full'] else 'false'}
+def kdfMicOff : Nat := {t['kdf']['mic_off']}
+def kdfMicLen : Nat := {t['kdf']['mic_len']}
+def kdfKckLen : Nat := {t['kdf']['kck_len']}
+def kdfPmkSize : Nat := {t['kdf']['pmk_size']}
+def kdfPtkSize : Nat := {t['kdf']['ptk_size']}
+def kdfPbkdf2Iter : Nat := {t['kdf']['pbkdf2_iter']}
 
 end Tins.Crypto.Gen
 """
